@@ -185,7 +185,7 @@ fn one_scope(tid: usize, kind: usize, epoch: u64, rng: &mut Rng, plain_probe: bo
 
 pub fn run(ctx: &Ctx) {
     // configurations: (threads, total acquisitions, delay mode)
-    let scale = if ctx.n > 0 { ctx.n } else if ctx.thorough { 40000 } else { 6000 };
+    let scale = if ctx.n > 0 { ctx.n } else if ctx.thorough { 150000 } else { 6000 };
     let tsan = cfg!(feature = "tsan");
     let mut configs: Vec<(usize, u64, u64)> = Vec::new();
     for &t in &[2usize, 3, 4, 8, 16] {
